@@ -1,5 +1,19 @@
 // Kani harnesses for src/internal/category.rs (child module `vk`)
 use super::*;
+
+/// harness helper: take the Ok value of an io::Result without pulling the
+/// Debug/Drop machinery of io::Error into the model (unwrap() would)
+pub fn must<T>(r: std::io::Result<T>) -> T {
+    match r {
+        Ok(x) => x,
+        Err(e) => {
+            core::mem::forget(e);
+            assert!(false, "expected Ok");
+            kani::assume(false);
+            unreachable!()
+        }
+    }
+}
 use std::str::FromStr;
 
 pub fn stub_format(_args: core::fmt::Arguments<'_>) -> String {
@@ -18,7 +32,7 @@ fn category_name_roundtrip() {
     let c = all[i];
     let back = Category::from_str(c.as_str());
     assert!(back.is_ok());
-    assert!(back.unwrap() == c);
+    assert!(must(back) == c);
     let j: usize = kani::any();
     kani::assume(j < all.len() && j != i);
     assert!(all[j] != c);
